@@ -167,10 +167,14 @@ impl IdentProvider for DefaultIdentProvider {
     fn next_ident(&mut self) -> usize {
         let counter = self.ident_counter;
         self.ident_counter += 1;
+        #[cfg(datadog_dd_native_iast_rewriter_js_verif)]
+        crate::verif_hooks::emit("next_ident", counter as i64, 0, "");
         counter
     }
 
     fn reset_counter(&mut self) {
+        #[cfg(datadog_dd_native_iast_rewriter_js_verif)]
+        crate::verif_hooks::emit("reset_counter", self.ident_counter as i64, 0, "");
         self.ident_counter = 0;
     }
 
